@@ -232,7 +232,7 @@ theorem guardPhase_key (C : Ctx) (S : Shape) (ses : Session) (u' : UserSt) (g : 
   · cases ses.exit with
     | forget =>
       exact kwp_keyForget _ _ _ _ hg.1 (fun _ => hQ _ _ (by out20) (keyInv_forgot hu hg))
-    | panic => exact hafter
+    | panic => exact kwp_ign _ _ _ _ _ (by nkm) (fun _ => hafter)
     | unlock =>
       simp only []
       rw [wp_bind]
@@ -352,7 +352,9 @@ theorem scopedSessionWith_key (C : Ctx) (S : Shape) (ses : Session) (u u' : User
       · exact key_frame (hrel _) _ _ _ (fun _ => hunw) (fun _ => hunw)
     apply bodySteps_key C S ses.body g hg.1
     · cases ses.exit with
-      | panic => exact hhandler
+      | panic =>
+        refine kwp_ign _ _ _ _ _ (by nkm) (fun _ => ?_)
+        exact hhandler
       | forget | drop | unlock | ret =>
         simp only [wp_done]
         split
